@@ -223,29 +223,20 @@ def judge(c, i, m):
 
 
 # --------------------------------------------------------------------------- known findings
-PENDING_FINDINGS = [{
-    'property': 'C12', 'id': 'C12-K1-args-arrival-order-on-unknown-name', 'status': 'open',
-    'what': 'return_as=ARGS, function without **kwargs: when a name reaches the call that is no parameter of the function '
-            '(surplus keyword under strict=False, or a declared Parameter whose name the function does not have) _as_args falls back '
-            'to arrival order and declared parameters receive values that never went through their own chain '
-            '(f(a=1, c=2) on def f(b=5, a=0) with Parameter a / Max(1) runs the body with a=2, b=1)',
-    'witness': {'sig': {'params': [{'n': 2, 'kwonly': False, 'default': [1, 5, 0]}, {'n': 1, 'kwonly': False, 'default': [1, 0, 0]}],
-                        'varkw': False, 'method': False},
-                'params': [{'n': 1, 'kind': 'plain', 'conv': 0, 'chain': [['max', 1]], 'required': True, 'default': None, 'ext': None}],
-                'mode': 0, 'strict': False, 'ignore': False, 'async': False, 'request': None,
-                'args': [], 'kwargs': [[1, [1, 1, 0]], [3, [1, 2, 0]]]},
-    'matcher': {'id': 'args_mode_name_outside_signature'},
-}]
+# The registered finding lives in /verif/known_findings.json (python3 harness/findings_add.py); nothing is pending.
+PENDING_FINDINGS = []
 
 
 def finding_matcher(f, case):
-    """narrow syntactic predicate: ARGS mode, plain function without **kwargs, and a keyword or a declared Parameter
-    whose name is no parameter of the function"""
+    """narrow syntactic predicate, the complement of gate_guard (Proofs/ValidateGate.v): ARGS mode, function without
+    **kwargs, no bound self (method call that is looked at), and a keyword or a declared Parameter whose name is no
+    parameter of the function"""
     if f.get('matcher', {}).get('id') != 'args_mode_name_outside_signature':
         return False
     signames = {sp['n'] for sp in case['sig']['params']}
     outside = [n for n, _ in case['kwargs'] if n not in signames] + [p['n'] for p in case['params'] if p['n'] not in signames]
-    return case['mode'] == 0 and not case['sig']['varkw'] and not case['sig']['method'] and bool(outside)
+    self_bound = case['sig']['method'] and not case['ignore']
+    return case['mode'] == 0 and not case['sig']['varkw'] and not self_bound and bool(outside)
 
 
 # --------------------------------------------------------------------------- generators
@@ -427,8 +418,11 @@ def malform(rng, c):
     c = json.loads(json.dumps(c))
     c['tag'] = 'malformed'
     signames = [sp['n'] for sp in c['sig']['params']]
-    k = rng.randrange(9)
-    if k == 0:                                   # surplus keyword
+    k = rng.randrange(11)
+    if k >= 9 and c['params']:                   # strict, but one argument has no Parameter (positional or keyword)
+        c['strict'] = True
+        c['params'].pop(rng.randrange(len(c['params'])))
+    elif k == 0:                                 # surplus keyword
         c['kwargs'].insert(rng.randint(0, len(c['kwargs'])), [8, gen_val(rng)])
     elif k == 1:                                 # too many positionals
         c['args'] = c['args'] + [gen_val(rng) for _ in range(len(signames) + 1 - len(c['args']))]
